@@ -55,7 +55,7 @@ def tasks(tier):
     # the hand-over uses ParticleArray.extract_particles / remove_particles /
     # align_particles: their contracts (C06) are re-proved here
     return ['zones', 'wiring', 'inlet', 'outlet', 'mirror', 'length',
-            'steppers', 'canary',
+            'steppers', 'setup', 'canary',
             'dep:C06:extract', 'dep:C06:remove', 'dep:C06:align',
             'dep:C06:add']
 
@@ -80,6 +80,8 @@ def run_task(task, ctx):
         return task_mirror(ctx, repo)
     if task == 'steppers':
         return task_steppers(ctx, repo)
+    if task == 'setup':
+        return task_setup(ctx, repo, m)
     if task == 'canary':
         d = z3.Real('cd')
         ctx.canary('canary.must_fail', Obligation('c', [d > 0], d > 1))
@@ -837,6 +839,133 @@ def task_steppers(ctx, repo):
                                           z3.BoolVal(bool(ok)), W,
                                           extra=dict(why=why)))
         ctx.prove('steppers.%s.active_stage_follows_steppers' % fam, obs)
+
+
+# -------------------------------------------------------------------- setup
+def task_setup(ctx, repo, m):
+    """From the manager to the update objects: get_inlet_outlet refreshes
+    the zone record from the zone's own array, then builds the zone's update
+    class on (zone array, fluid array, the zone's info, kernel, dim,
+    active_stages, ghost_pa = the paired ghost array or None); the base
+    constructors store every argument under its own name; initialize() takes
+    reference point, normal and length from the zone's info."""
+    W = m.path
+    obs = []
+    fn = m.methods('InletOutletManager')['get_inlet_outlet']
+    built = []
+
+    def mk_info(kind):
+        return SymObject(None, dict(
+            pa_name=kind, update_cls=Native(
+                lambda e, s_, a, k, n: (built.append((kind, list(a),
+                                                      dict(k))),
+                                        ('obj', kind))[1])), kind + 'info')
+    ii, oi = mk_info('inlet'), mk_info('outlet')
+    arrays = {nm: ('array', nm) for nm in ('inlet', 'outlet', 'fluid',
+                                           'ghost_inlet', 'ghost_outlet')}
+    for tag, ipairs, opairs in (('ghosts', {'inlet': 'ghost_inlet'},
+                                 {'outlet': 'ghost_outlet'}),
+                                ('noghosts', {}, {})):
+        del built[:]
+        upd = []
+        obj = SymObject('InletOutletManager', dict(
+            inletinfo=[ii], outletinfo=[oi], fluids=['fluid'],
+            inlet_pairs=dict(ipairs), outlet_pairs=dict(opairs),
+            kernel='KERNEL', dim=z3.Int('dim'), active_stages=['STAGES']),
+            'self')
+        obj.module = MOD
+        ex = Executor(repo, m, qualname='InletOutletManager.'
+                      'get_inlet_outlet', merge=False)
+        from pyvc.symexec import CalleeContract
+        ex.contracts['InletOutletManager._update_inlet_outlet_info'] = \
+            CalleeContract(lambda e, s_, a, k, n: upd.append(
+                (a[1], len(built))))
+        try:
+            outs = ex.exec_function(fn, dict(self=obj,
+                                             particle_array=arrays))
+        except VCError as e:
+            ctx.outside('setup.get_inlet_outlet', str(e))
+            return
+        ok = len(outs) == 1 and outs[0].value == [('obj', 'inlet'),
+                                                  ('obj', 'outlet')] and \
+            len(built) == 2
+        why = 'returned %r, %d objects built' % (
+            outs[0].value if outs else None, len(built))
+        for (kind, a_, k_), info, pairs in zip(built, (ii, oi),
+                                               (ipairs, opairs)):
+            gh = arrays[pairs[kind]] if kind in pairs else None
+            pos = list(a_) + [None] * 6
+            if not (pos[0] == arrays[kind] and pos[1] == arrays['fluid'] and
+                    pos[2] is info and pos[3] == 'KERNEL' and
+                    S.same(pos[4], obj.attrs['dim']) and
+                    pos[5] == ['STAGES'] and k_.get('ghost_pa', 'absent')
+                    == gh and len(a_) == 6):
+                ok = False
+                why = '%s built with %r %r' % (kind, a_, k_)
+        # the zone record is refreshed from the zone's own array, before the
+        # object is built
+        if upd != [(arrays['inlet'], 0), (arrays['outlet'], 1)]:
+            ok = False
+            why = 'zone records refreshed as %r' % (upd,)
+        obs.append(Obligation('setup.get_inlet_outlet.' + tag, [],
+                              z3.BoolVal(bool(ok)), W, extra=dict(why=why)))
+    ctx.function(m, fn, 'InletOutletManager.get_inlet_outlet')
+    # constructors and initialize()
+    for cls, names in (('InletBase', ('inlet_pa', 'dest_pa', 'inletinfo')),
+                       ('OutletBase', ('outlet_pa', 'source_pa',
+                                       'outletinfo'))):
+        fn = m.methods(cls)['__init__']
+        params = [a.arg for a in fn.args.args][1:]
+        vals = {p_: ('arg', p_) for p_ in params}
+        obj = SymObject(cls, {}, 'self')
+        obj.module = MOD
+        ex = Executor(repo, m, qualname=cls + '.__init__', merge=False)
+        ex.spec_env['get_config'] = Native(lambda e, s_, a, k, n: SymObject(
+            None, dict(use_opencl=False, use_cuda=False), 'cfg'))
+        try:
+            outs = ex.exec_function(fn, dict(self=obj, **vals))
+        except VCError as e:
+            ctx.outside('setup.%s.__init__' % cls, str(e))
+            continue
+        ctx.function(m, fn, cls + '.__init__', ex.dropped)
+        ok = len(outs) == 1
+        why = ''
+        if ok:
+            at = outs[0].state.env['self'].attrs
+            for p_ in params:
+                if at.get(p_) != vals[p_]:
+                    ok = False
+                    why = 'attribute %s is %r' % (p_, at.get(p_))
+            ok = ok and at.get('_init') is False
+        obs.append(Obligation('setup.%s.stores_every_argument' % cls, [],
+                              z3.BoolVal(bool(ok)), W, extra=dict(why=why)))
+        f2 = m.methods(cls)['initialize']
+        info = SymObject(None, dict(
+            refpoint=[z3.Real('rx'), z3.Real('ry'), z3.Real('rz')],
+            normal=[z3.Real('nx'), z3.Real('ny'), z3.Real('nz')],
+            length=z3.Real('L'), dx=z3.Real('dx'),
+            props_to_copy=('props',)), 'info')
+        obj = SymObject(cls, {names[2]: info}, 'self')
+        obj.module = MOD
+        ex = Executor(repo, m, qualname=cls + '.initialize', merge=False)
+        try:
+            outs = ex.exec_function(f2, dict(self=obj))
+        except VCError as e:
+            ctx.outside('setup.%s.initialize' % cls, str(e))
+            continue
+        ctx.function(m, f2, cls + '.initialize', ex.dropped)
+        ok = len(outs) == 1
+        if ok:
+            at = outs[0].state.env['self'].attrs
+            ia = info.attrs
+            ok = all(at.get(k_) is v_ for k_, v_ in (
+                ('x', ia['refpoint'][0]), ('y', ia['refpoint'][1]),
+                ('z', ia['refpoint'][2]), ('xn', ia['normal'][0]),
+                ('yn', ia['normal'][1]), ('zn', ia['normal'][2]),
+                ('length', ia['length'])))
+        obs.append(Obligation('setup.%s.initialize_reads_the_zone_record'
+                              % cls, [], z3.BoolVal(bool(ok)), W))
+    ctx.prove('setup.update_objects_are_wired_to_their_arrays', obs)
 
 
 # ---------------------------------------------------------------- zone length
